@@ -29,14 +29,25 @@ Definition prune_reason (c : cfg) (now : Z) (m : msg) : Prop :=
   is_leased m = false /\ 0 < c_prune_iv c /\
   (prune_age_eligible c now m = true \/ (m_st m = Dead /\ 0 < c_dlq_depth c)).
 
+(** the operation is an enqueue and its result is the success result of that form *)
+Definition enq_ok (x : op) (r : res) : bool :=
+  match x, r with
+  | Enqueue _ _, RUnit => true
+  | EnqueueBatch _ (_ :: _), RCount _ _ _ => true
+  | _, _ => false
+  end.
+
 Inductive change (c : cfg) (x : op) (r : res) (m m' : msg) : Prop :=
 | ch_same : m' = m -> change c x r m m'
-| ch_expire : releases x = true -> expired (op_now x) m = true -> m' = release (op_now x) m -> change c x r m m'
+| ch_expire : releases x = true -> expired (op_now x) m = true ->
+              (is_dequeue x = true \/ presents x m = true) ->       (* a dequeue sweeps; a lease operation releases only the lease it was given *)
+              m' = release (op_now x) m -> change c x r m m'
 | ch_dequeue : forall route target b ttl lid m0,
     x = Dequeue (op_now x) route target b ttl ->
     (m0 = m \/ (expired (op_now x) m = true /\ m0 = release (op_now x) m)) ->
     ready (op_now x) route target m0 = true ->
     In (m_id m, lid) (item_pairs r) ->
+    m_lease m <> Some lid ->                                          (* the new lease id is not the one the message held *)
     m' = leased_version (op_now x) (eff_ttl ttl) lid m0 ->
     change c x r m m'
 | ch_settle : forall k lid,
@@ -52,9 +63,10 @@ Inductive removal (c : cfg) (x : op) (r : res) (m : msg) : Prop :=
     lease_op_kind x = Some KAck -> In lid (presented x) -> m_lease m = Some lid ->
     is_leased m = true -> op_now x < m_until m -> res_ok r = true ->
     c_deliv_age c <= 0 -> removal c x r m
-| rm_delete : manage_kind_of x = Some MDeleteDead -> m_st m = Dead -> res_ok r = true -> removal c x r m
+| rm_delete : (exists now ids, x = Manage now MDeleteDead ids /\ In (m_id m) (norm_ids ids [])) ->
+              m_st m = Dead -> res_ok r = true -> removal c x r m
 | rm_prune : prunes x = true -> prune_reason c (op_now x) m -> removal c x r m
-| rm_evict : enq_list x <> [] -> res_ok r = true -> c_drop_oldest c = true -> 0 < c_max_depth c ->
+| rm_evict : enq_ok x r = true -> c_drop_oldest c = true -> 0 < c_max_depth c ->
              queuedb m = true -> removal c x r m.
 
 (** every message after the step is the image of a message before it under [pm], or new *)
@@ -72,7 +84,7 @@ Definition step_spec (c : cfg) (x : op) (o : oracle) (r : res) (l l' : list msg)
 (** ** consequences of [change] / [removal]: the documented machine *)
 Lemma change_same_imm c x r m m' : change c x r m m' -> same_imm m m'.
 Proof.
-  intros H. destruct H as [E | _ _ E | route target b ttl lid m0 _ H0 _ _ E | k lid _ _ _ _ _ _ _ E | k _ _ _ E].
+  intros H. destruct H as [E | _ _ _ E | route target b ttl lid m0 _ H0 _ _ _ E | k lid _ _ _ _ _ _ _ E | k _ _ _ E].
   - subst. apply same_imm_refl.
   - subst. apply release_same_imm.
   - subst. destruct H0 as [H0 | [_ H0]]; subst; repeat split.
@@ -98,7 +110,7 @@ Proof. destruct x; simpl; intros H; try discriminate; reflexivity. Qed.
 
 Lemma change_edge c x r m m' : change c x r m m' -> edge_ok x (m_st m) (m_st m').
 Proof.
-  intros H. destruct H as [E | Hr He E | route target b ttl lid m0 Ex H0 Hrd _ E | k lid Hk _ _ Hl _ _ _ E | k Hk Ha _ E].
+  intros H. destruct H as [E | Hr He _ E | route target b ttl lid m0 Ex H0 Hrd _ _ E | k lid Hk _ _ Hl _ _ _ E | k Hk Ha _ E].
   - subst. left. reflexivity.
   - subst. unfold expired, is_leased in He. apply andb_true_iff in He. destruct He as [Hs _].
     destruct (m_st m); simpl in Hs; try discriminate. right. simpl. exact Hr.
@@ -123,7 +135,7 @@ Lemma removal_of_live_lease c x r m :
   removal c x r m -> is_leased m = true ->
   lease_op_kind x = Some KAck /\ exists lid, m_lease m = Some lid /\ In lid (presented x) /\ op_now x < m_until m.
 Proof.
-  intros H L. destruct H as [lid Hk Hp Hl _ Hu _ _ | _ Hd _ | _ [Hn _] | _ _ _ _ Hq].
+  intros H L. destruct H as [lid Hk Hp Hl _ Hu _ _ | _ Hd _ | _ [Hn _] | _ _ _ Hq].
   - split; [exact Hk|]. exists lid. repeat split; assumption.
   - unfold is_leased in L. rewrite Hd in L. discriminate.
   - congruence.
@@ -134,7 +146,7 @@ Qed.
 Lemma change_on_error c x e m m' :
   change c x (RErr e) m m' -> m' = m \/ (expired (op_now x) m = true /\ m' = release (op_now x) m).
 Proof.
-  intros H. destruct H as [E | _ He E | route target b ttl lid m0 _ _ _ Hin _ | k lid _ _ _ _ _ Hok _ _ | k _ _ Hok _].
+  intros H. destruct H as [E | _ He _ E | route target b ttl lid m0 _ _ _ Hin _ _ | k lid _ _ _ _ _ Hok _ _ | k _ _ Hok _].
   - left. exact E.
   - right. split; assumption.
   - simpl in Hin. destruct Hin.
@@ -144,8 +156,9 @@ Qed.
 
 Lemma removal_on_error c x e m : removal c x (RErr e) m -> prunes x = true /\ prune_reason c (op_now x) m.
 Proof.
-  intros H. destruct H as [lid _ _ _ _ _ Hok _ | _ _ Hok | Hp Hr | _ Hok _ _ _]; try discriminate.
-  split; assumption.
+  intros H. destruct H as [lid _ _ _ _ _ Hok _ | _ _ Hok | Hp Hr | Hok _ _ _]; try discriminate.
+  - split; assumption.
+  - destruct x; try discriminate; destruct es; discriminate.
 Qed.
 
 (** ** the phases *)
@@ -289,7 +302,11 @@ Proof.
   set (x := Dequeue now route target batch ttl).
   destruct (valid_pick now route target (clamp_batch batch) (msgs (deq_pre fl c now o s)) (issued (deq_pre fl c now o s)) (o_picked o)) eqn:V;
     inversion H; subst s' r; clear H.
-  - exists (pm_comp (deq_pre_pm fl c now o s) (pm_lease now (eff_ttl ttl) (o_picked o))), [].
+  - (* the lease ids handed out are not held by any stored message *)
+    assert (Fresh : forall m lid, In m (msgs s) -> In (m_id m, lid) (o_picked o) -> m_lease m <> Some lid).
+    { intros m lid Hm Pin L. apply valid_pick_parts in V. destruct V as [_ [_ [_ [D _]]]].
+      apply (D lid); [apply in_map_iff; exists (m_id m, lid); auto|]. rewrite deq_pre_issued. apply (inv_liss _ _ I m lid Hm L). }
+    exists (pm_comp (deq_pre_pm fl c now o s) (pm_lease now (eff_ttl ttl) (o_picked o))), [].
     split; [simpl; rewrite app_nil_r, deq_pre_msgs, apply_pm_comp; reflexivity|]. split; [|left; reflexivity].
     intros m Hm. unfold pm_comp.
     destruct (deq_pre_cases fl c now o s m (inv_nodup _ _ I) Hm) as [[E R] | [E | [E Ee]]]; rewrite E.
@@ -297,13 +314,13 @@ Proof.
     + assert (Hin : In m (msgs (deq_pre fl c now o s))) by (rewrite deq_pre_msgs; apply apply_pm_In; exists m; auto).
       destruct (pm_lease_cases _ _ _ _ _ _ (eff_ttl ttl) _ m I2 V Hin) as [P | [lid [Pin [Prd P]]]]; rewrite P.
       * apply ch_same. reflexivity.
-      * apply (ch_dequeue c x _ m _ route target batch ttl lid m); auto.
-        rewrite item_pairs_RItems. exact Pin.
+      * apply (ch_dequeue c x _ m _ route target batch ttl lid m); auto;
+          try (rewrite item_pairs_RItems; exact Pin); try exact (Fresh m lid Hm Pin).
     + assert (Hin : In (release now m) (msgs (deq_pre fl c now o s))) by (rewrite deq_pre_msgs; apply apply_pm_In; exists m; auto).
       destruct (pm_lease_cases _ _ _ _ _ _ (eff_ttl ttl) _ _ I2 V Hin) as [P | [lid [Pin [Prd P]]]]; rewrite P.
       * apply ch_expire; auto.
-      * apply (ch_dequeue c x _ m _ route target batch ttl lid (release now m)); auto.
-        rewrite item_pairs_RItems. exact Pin.
+      * apply (ch_dequeue c x _ m _ route target batch ttl lid (release now m)); auto;
+          try (rewrite item_pairs_RItems; exact Pin); try exact (Fresh m lid Hm Pin).
   - exists (deq_pre_pm fl c now o s), []. split; [rewrite app_nil_r; apply deq_pre_msgs|]. split; [|left; reflexivity].
     intros m Hm.
     destruct (deq_pre_cases fl c now o s m (inv_nodup _ _ I) Hm) as [[E R] | [E | [E Ee]]]; rewrite E.
@@ -391,7 +408,8 @@ Lemma lchange_to_change c x r k m :
 Proof.
   intros Hk Hne Hnone res [H | [[lid [A [B [Cc D]]]] | [lid [A [B [Cc [D E]]]]]]] Hok.
   - subst. apply ch_same. reflexivity.
-  - subst. apply ch_expire; [apply (lease_op_kind_releases x k Hk) | exact Cc | reflexivity].
+  - subst. apply ch_expire; [apply (lease_op_kind_releases x k Hk) | exact Cc | | reflexivity].
+    right. unfold presents. rewrite A. apply memN_In. exact B.
   - pose proof (Hok lid A B Cc D E) as Ok. subst res. destruct (lease_effect c (op_now x) k m) as [m'|] eqn:Ef.
     + apply (ch_settle c x r m m' k lid); auto.
     + destruct (Hnone eq_refl) as [Ek Hd]. subst k. apply (rm_ack c x r m lid); auto.
@@ -537,11 +555,13 @@ Proof.
   intros H. unfold step_manage in H. inversion H; subst s' r; clear H.
   exists (pm_manage now k (norm_ids idl [])), []. simpl. rewrite app_nil_r. split; [reflexivity|]. split; [|left; reflexivity].
   intros m _. unfold pm_manage. destruct (memN (m_id m) (norm_ids idl []) && allowed_from k (m_st m)) eqn:E.
-  - apply andb_true_iff in E. destruct E as [_ Ea].
+  - pose proof E as E0. apply andb_true_iff in E. destruct E as [_ Ea].
     destruct (manage_effect now k m) as [m'|] eqn:Ef.
     + apply (ch_manage c _ _ m m' k); auto.
     + unfold manage_effect in Ef. destruct k; try discriminate.
-      apply rm_delete; [reflexivity | | reflexivity]. destruct (m_st m); simpl in Ea; try discriminate. reflexivity.
+      apply rm_delete; [| | reflexivity].
+      * exists now, idl. split; [reflexivity|]. apply andb_true_iff in E0. destruct E0 as [Em _]. apply memN_In. exact Em.
+      * destruct (m_st m); simpl in Ea; try discriminate. reflexivity.
   - apply ch_same. reflexivity.
 Qed.
 
@@ -650,10 +670,12 @@ Proof. rewrite <- (apply_pm_id l) at 2. apply apply_pm_ext. reflexivity. Qed.
 
 Lemma step_enqueue_spec fl c x now single es o s s' r :
   op_now x = now -> enq_list x = es -> (es <> [] -> prunes x = true) ->
+  (single = true -> exists n e, x = Enqueue n e) ->
+  (single = false -> es = [] \/ exists n e0 es0, x = EnqueueBatch n (e0 :: es0)) ->
   Inv s -> step_enqueue fl c now single es o s = (s', r) ->
   step_spec c x o r (msgs s) (msgs s').
 Proof.
-  intros Hnow Hes Hpr I H. unfold step_enqueue in H.
+  intros Hnow Hes Hpr HokS HokB I H. unfold step_enqueue in H.
   destruct es as [|e0 es0]; [inversion H; subst; apply identity_spec|].
   set (es := e0 :: es0) in *.
   assert (Hp : prunes x = true) by (apply Hpr; discriminate).
@@ -666,9 +688,9 @@ Proof.
   set (news := map (fun p => mk_msg now (fst p) (snd p)) ies) in *.
   (* the successful outcome, for any list of evicted queued ids *)
   assert (Success : forall vs ord lp ls iss r0,
-            res_ok r0 = true -> queued_ids l1 vs -> (vs <> [] -> c_drop_oldest c = true /\ 0 < c_max_depth c) ->
+            res_ok r0 = true -> enq_ok x r0 = true -> queued_ids l1 vs -> (vs <> [] -> c_drop_oldest c = true /\ 0 < c_max_depth c) ->
             step_spec c x o r0 (msgs s) (msgs (mkState (apply_pm (pm_remove_ids vs) l1 ++ news) ord lp ls iss))).
-  { intros vs ord lp ls iss r0 Hok Q Hdrop.
+  { intros vs ord lp ls iss r0 Hok Heok Q Hdrop.
     exists (pm_comp (prune_pm c now (o_gone o) s) (pm_remove_ids vs)), news. simpl.
     split; [unfold l1, s1; rewrite prune_msgs_eq, apply_pm_comp; reflexivity|]. split.
     - intros m Hm. unfold pm_comp.
@@ -678,7 +700,7 @@ Proof.
         assert (Hin : In m l1) by (unfold l1, s1; rewrite prune_msgs_eq; apply apply_pm_In; exists m; auto).
         assert (m1 = m) by (apply (nodup_ids_inj l1); [apply I1 | | |]; assumption). subst m1.
         assert (Hne : vs <> []) by (intros N; subst vs; destruct Ev).
-        destruct (Hdrop Hne). apply rm_evict; auto. rewrite Hes. discriminate.
+        destruct (Hdrop Hne). apply rm_evict; auto.
       + rewrite <- Hnow in R. apply rm_prune; assumption.
     - right. split; [exact Hok|]. exists ies. rewrite Hes, Hnow. split; [exact EA | reflexivity]. }
   destruct fl.
@@ -688,11 +710,12 @@ Proof.
     destruct single.
     + destruct (pressure c l1); [inversion H; subst; apply Pruned|].
       destruct (negb (forallb (fun i => negb (has_id i l1) || memN i victims) (map fst ies))); [inversion H; subst; apply Pruned|].
-      inversion H; subst s' r. apply Success; auto.
+      inversion H; subst s' r. apply Success; auto. destruct (HokS eq_refl) as [n0 [e1 Ex]]. subst x. reflexivity.
     + destruct (negb (nodupN (map fst ies) && forallb (fun i => negb (has_id i l1) || memN i victims) (map fst ies)));
         [inversion H; subst; apply Pruned|].
       destruct (pressure c l1); [inversion H; subst; apply Pruned|].
       inversion H; subst s' r. apply Success; auto.
+      destruct (HokB eq_refl) as [Ex | [n0 [e1 [es1 Ex]]]]; [discriminate | subst x; reflexivity].
   - (* SQLite *)
     match type of H with (match ?rm with _ => _ end) = _ => set (room := rm) in * end.
     assert (Hroom : forall l2, room = Some l2 ->
@@ -709,7 +732,10 @@ Proof.
     destruct room as [l2|] eqn:Er; [|inversion H; subst; apply Pruned].
     destruct (nodupN (map fst ies) && forallb (fun i => negb (has_id i l2)) (map fst ies)); [|inversion H; subst; apply Pruned].
     destruct (Hroom l2 eq_refl) as [vs [E [Q Hdrop]]]. subst l2.
-    inversion H; subst s' r. apply Success; auto. destruct single; reflexivity.
+    inversion H; subst s' r. apply Success; auto; [destruct single; reflexivity|].
+    destruct single.
+    + destruct (HokS eq_refl) as [n0 [e1 Ex]]. subst x. reflexivity.
+    + destruct (HokB eq_refl) as [Ex | [n0 [e1 [es1 Ex]]]]; [discriminate | subst x; reflexivity].
 Qed.
 
 (** ** every step *)
@@ -717,8 +743,11 @@ Theorem step_sound fl c s x o s' r :
   Inv s -> step fl c s x o = (s', r) -> step_spec c x o r (msgs s) (msgs s').
 Proof.
   intros I H. destruct x; cbn [step] in H.
-  - apply (step_enqueue_spec fl c _ now true [e] o s s' r); auto.
-  - apply (step_enqueue_spec fl c _ now false es o s s' r); auto. intros N. destruct es; [contradiction | reflexivity].
+  - apply (step_enqueue_spec fl c _ now true [e] o s s' r); auto; [intros _; exists now, e; reflexivity | discriminate].
+  - apply (step_enqueue_spec fl c _ now false es o s s' r); auto.
+    + intros N. destruct es; [contradiction | reflexivity].
+    + discriminate.
+    + intros _. destruct es as [|e0 es0]; [left; reflexivity | right; exists now, e0, es0; reflexivity].
   - apply (step_dequeue_spec fl c now route target batch ttl o s s' r); assumption.
   - apply (step_lease_spec fl c now k l o s s' r); assumption.
   - destruct (batch_kind_ok k) eqn:Ek.
